@@ -145,6 +145,8 @@ def rules(ck, P):
         okb = ir.contains(pl["body"], lambda y: y.get("k") == "if" and ir.cmp_norm(y["c"]) == ("entry.run_length", ">", "0"))
         ck.check(okb, "R-PM-RUN", pl["q"], "lookup: run_length > 0 is a tile, otherwise the entry is followed as a leaf directory", "lookup does not distinguish tiles from leaf pointers by run_length", ir.loc(pl))
 
+    # ---------------- R-CACHE-KEY: a cached value is a function of its key
+    _cache_key_rules(ck, P)
     # ---------------- R-TAR-PREFIX
     tr = [b for b in P.bodies if b["q"].endswith("tar::reader::TarTilesReader::open_path")]
     if ck.anchor("R-TAR-PREFIX", "tar open_path", tr, 1):
@@ -188,6 +190,64 @@ def rules(ck, P):
             t = [wire.match_table(n) for n in ir.walk_nodes(fu["body"]) if n.get("k") == "match"]
             inv = {v: k for k, v in (t[0] if t else {}).items() if v is not None}
             ck.check(inv == wire.SPEC_CODES[spec_key], "R-CODE", spec_key + "|from_u8", "from_u8 accepts exactly the published codes", "from_u8 table %s" % (t[0] if t else None), ir.loc(fu))
+
+
+# accessors that are the identity of the object they are called on (reason reviewed):
+IDENTITY_ACCESSORS = {"get_coord3()": "BlockIndex holds at most one BlockDefinition per block coordinate (HashMap keyed by the same coordinate)"}
+
+
+def _cache_key_rules(ck, P):
+    """Index caches (versatiles per-block tile index, PMTiles leaf directories) are keyed so that two different values
+    never share a key: for get_or_set(&K, || f(inputs)) every non-self input of f must be K or a part of K; for the
+    get(K) … add(K, v) form both keys are the same place and v's inputs belong to the object K identifies."""
+    sites = 0
+    for b in P.bodies:
+        if b.get("target") not in (None, "lib", "bin") or not P.is_workspace(b["q"]) or "::tests::" in b["q"]:
+            continue
+        lets = comp.lets_of(b)
+        for n in ir.walk_nodes(b["body"]):
+            if n.get("k") != "mcall" or "limited_cache::LimitedCache::" not in (n.get("q") or ""):
+                continue
+            if b.get("self_adt", "").endswith("LimitedCache"):
+                continue
+            nm = n["name"]
+            if nm == "get_or_set" and len(n["a"]) == 2 and n["a"][1].get("k") == "closure":
+                sites += 1
+                keyp = comp.deep_place(n["a"][0], lets)
+                clo = n["a"][1]
+                inner = set()
+                for y in ir.walk_nodes(clo["body"]):
+                    if y.get("k") in ("let", "letx"):
+                        for bb in ir.pat_binds(y["pat"]):
+                            inner.add(bb["hid"])
+                for p_ in clo.get("params", ()):
+                    for bb in ir.pat_binds(p_):
+                        inner.add(bb["hid"])
+                inputs = set()
+                for y in ir.walk_nodes(clo["body"]):
+                    if y.get("k") == "path" and y.get("r") == "local" and y["hid"] not in inner:
+                        dp = comp.deep_place(y, lets)
+                        if dp != "self" and not dp.startswith("self."):
+                            inputs.add(dp)
+                bad = sorted(i for i in inputs if not (i == keyp or i.startswith(keyp + ".")))
+                ck.check(not bad, "R-CACHE-KEY", "%s|get_or_set(%s)" % (b["q"], keyp), "cached value is computed only from its key `%s` (inputs %s) and reader constants" % (keyp, sorted(inputs)),
+                         "the cached value is computed from %s but stored under the key `%s`: two different values can share a key, and the second lookup returns the first one's value" % (bad, keyp), ir.loc(n))
+            elif nm == "add" and len(n["a"]) == 2:
+                sites += 1
+                keyp = comp.deep_place(n["a"][0], lets)
+                gets = [g for g in ir.walk_nodes(b["body"]) if g.get("k") == "mcall" and "limited_cache::LimitedCache::get" in (g.get("q") or "") and g["name"] == "get"]
+                same = bool(gets) and all(comp.deep_place(g["a"][0], lets) == keyp for g in gets)
+                ck.check(same, "R-CACHE-KEY", "%s|get/add(%s)" % (b["q"], keyp), "the value is added under the key it was looked up with (`%s`)" % keyp,
+                         "lookup key %s and insertion key `%s` differ" % ([comp.deep_place(g["a"][0], lets) for g in gets], keyp), ir.loc(n))
+                root, _, acc = keyp.partition(".")
+                ident = acc in IDENTITY_ACCESSORS
+                # inputs of the computation: every ByteRange read in this function is taken from the same object
+                reads = [y for y in ir.walk_nodes(b["body"]) if y.get("k") == "mcall" and y.get("name") == "read_range"]
+                from_root = all(comp.deep_place(r["a"][0], lets).split(".")[0] == root for r in reads)
+                ck.check(ident and from_root and bool(reads), "R-CACHE-KEY", "%s|identity(%s)" % (b["q"], keyp),
+                         "key `%s` identifies the object the value is read from (%s)" % (keyp, IDENTITY_ACCESSORS.get(acc, "")),
+                         "the key `%s` is not a reviewed identity of the object the cached value is read from (%s)" % (keyp, [comp.deep_place(r["a"][0], lets) for r in reads]), ir.loc(n))
+    ck.anchor("R-CACHE-KEY", "index cache fill sites", list(range(sites)), 2)
 
 
 def mutants(P):
